@@ -13,8 +13,8 @@ EXPLANATION = ('Every swizzle method body is interpreted once on symbolic lanes;
                'input atoms (bit-exact copies, no arithmetic) selected by the method name, and the return type must be the '
                'documented one.  Exhaustive over all impls of the three swizzle traits in every analysed backend.')
 
-CONFIGS_QUICK = ['sse2', 'sse2-fma', 'scalar']
-CONFIGS_THOROUGH = ['sse2', 'sse2-fma', 'scalar', 'coresimd', 'neon', 'wasm32']
+CONFIGS_QUICK = ['sse2', 'sse2-fma', 'sse41', 'scalar', 'coresimd', 'neon', 'wasm32']
+CONFIGS_THOROUGH = ['sse2', 'sse2-fma', 'sse41', 'scalar', 'coresimd', 'neon', 'wasm32']
 TRAITS = {'swizzles::vec_traits::Vec2Swizzles': 2, 'swizzles::vec_traits::Vec3Swizzles': 3, 'swizzles::vec_traits::Vec4Swizzles': 4}
 IDX = {'x': 0, 'y': 1, 'z': 2, 'w': 3}
 FLOOR = 5800   # measured 5842 swizzle fns per config (34 types) when armed
